@@ -143,6 +143,9 @@ func specMs(d time.Duration) float64 { return ConvertDurationToMs(d) }
 //@ ensures[C06+C02.par.order]     (sendN == old(sendN) || sendN - old(sendN) <= int(p.MaxTTL)-int(p.MinTTL)+1) && forall(k, old(sendN), sendN, sel(sendLog, k) == int(p.MinTTL) + (k - old(sendN)))
 //@ ensures[C06.par.pace]      forall(k, old(sendN)+1, sendN, sel(sendClock, k) >= sel(sendClock, k-1) + int(p.SendDelay))
 
+// the whole run listens under one deadline context created with exactly the budget MaxTimeout() (C08)
+//@ before Wait assert[C08.par.deadline] ctxTimeout(timeoutCtx) == int64(p.MaxTimeout()) && bounded(timeoutCtx)
+
 //@ func TracerouteParallel$1
 //@ safety C07 C04 C05 C14
 //@ requires[pre.probe]     probe != nil && p.MinTTL <= probe.TTL && int(probe.TTL) < len(results) && !held(resultsMu)
